@@ -48,6 +48,12 @@ def start(vkind, n, M, V, seed):
         return rnd(n), n
     if vkind == "batch":
         return rnd(n, 2), n
+    if vkind == "batchmix":  # a vector in a 1-dimensional invariant subspace next to a generic one
+        v0 = V[:, 0]
+        if not cplx and np.max(np.abs(v0.imag)) > 1e-12:
+            return None, None
+        B = np.stack([(v0 if cplx else v0.real) * 2.0, rnd(n)], axis=1)
+        return B, n
     if vkind == "default":
         return None, n
     d = min({"inv1": 1, "inv2": 2, "inv3": 3}[vkind], n)
@@ -111,7 +117,7 @@ def run_case(case, seed):
             return {"states": 0, "transitions": 0, "outcome": "no-real-vector-in-that-subspace", "violations": []}
         normA = max(float(np.linalg.norm(M, 2)), 1e-300)
         ref_n = None
-        if entry == "arnoldi" and vkind != "batch" and any(m > n for m in ms):
+        if entry == "arnoldi" and vkind not in ("batch", "batchmix") and any(m > n for m in ms):
             try:
                 Qn, Hn, _ = arnoldi(A, None if v is None else v.copy(), max_iters=n, tol=tol)
                 ref_n = (np.asarray(Qn.to_dense()), np.asarray(Hn.to_dense()))
@@ -172,12 +178,12 @@ def run_case(case, seed):
                 h.update(np.round(np.sort_complex(vals.astype(np.complex128)) / normA, 6).tobytes())
                 continue
             Qd, Hd = np.asarray(Q.to_dense()), np.asarray(H.to_dense())
-            if vkind == "batch":
+            if vkind in ("batch", "batchmix"):
                 if Qd.ndim != 3 or Qd.shape[0] != 2:
                     bad("batch-shape", {"Q": list(Qd.shape)})
                     continue
                 for c in range(2):
-                    check_one(M, v[:, c], Qd[c], Hd[c], m, d_inv, bad, normA)
+                    check_one(M, v[:, c], Qd[c], Hd[c], m, 1 if (vkind == "batchmix" and c == 0) else d_inv, bad, normA)
             else:
                 check_one(M, v, Qd, Hd, m, d_inv, bad, normA, ref_n)
             h.update(np.round(np.abs(Hd) / normA, 6).tobytes())
@@ -195,14 +201,16 @@ def cases(tier, seed):
         for n in small + (big if fam != "int" else []):
             ms = list(range(1, n + 4)) if n <= 6 else sorted({1, 2, 5, n, n + 1, n + 5, 1000})
             for cplx in cplxs:
-                for vk in ("rand", "inv1", "inv2", "inv3", "batch", "default"):
+                for vk in ("rand", "inv1", "inv2", "inv3", "batch", "batchmix", "default"):
+                    if vk == "batchmix" and n < 3:
+                        continue
                     if fam == "int" and vk.startswith("inv") and not cplx:
                         continue
                     for tol in (1e-12, 1e-7):
                         for entry in ("arnoldi", "arnoldi_eigs", "Arnoldi()"):
-                            if vk == "batch" and entry != "arnoldi":
+                            if vk in ("batch", "batchmix") and entry != "arnoldi":
                                 continue
-                            if tier == "quick" and n > 6 and not (tol == 1e-12 and entry != "Arnoldi()" and vk in ("rand", "inv2", "batch")):
+                            if tier == "quick" and n > 6 and not (tol == 1e-12 and entry != "Arnoldi()" and vk in ("rand", "inv2", "batch", "batchmix")):
                                 continue
                             if n == 200 and not (entry == "arnoldi" and vk in ("rand", "inv3") and tol == 1e-12):
                                 continue
